@@ -3,6 +3,8 @@ package main
 import (
 	"fmt"
 	"os"
+	"os/exec"
+	"strings"
 
 	"dvc/internal/vc"
 )
@@ -26,5 +28,37 @@ func cmdReplay(args []string) int {
 		return 2
 	}
 	fmt.Println(string(b))
-	return 0
+	// Re-run the saved verification condition, if it was kept next to the replay file: the same solver query
+	// that failed, so that the verdict (and the solver's model, when it gives one) can be reproduced.
+	smt := strings.TrimSuffix(args[0], ".json") + ".smt2"
+	if _, err := os.Stat(smt); err != nil {
+		return 0
+	}
+	fmt.Println("re-running the saved verification condition", smt)
+	rc := 0
+	for _, sv := range []string{"z3-new", "z3", "cvc5"} {
+		var cmd *exec.Cmd
+		switch sv {
+		case "cvc5":
+			cmd = exec.Command("cvc5", "--tlimit=30000", smt)
+		default:
+			cmd = exec.Command(sv, "-T:30", smt)
+		}
+		out, _ := cmd.CombinedOutput()
+		first := strings.SplitN(strings.TrimSpace(string(out)), "\n", 2)[0]
+		fmt.Printf("  %-7s %s\n", sv+":", first)
+		if first == "sat" {
+			fmt.Println("  the negated obligation is satisfiable: the obligation is refuted (the model is a counterexample in the verifier's heap encoding)")
+			rc = 1
+		}
+		if first == "unsat" {
+			fmt.Println("  the obligation is proved by this solver (no violation on this tree)")
+			return 0
+		}
+	}
+	if rc == 0 {
+		fmt.Println("  undecided by every solver within 30 s: the obligation could not be discharged (no-failing-input-found)")
+		rc = 1
+	}
+	return rc
 }
